@@ -239,6 +239,37 @@ impl Machine {
     ///
     /// Consider using [`Machine::run_query`] if you wish to handle
     /// predicates that may fail, leave a choice point or throw.
+    /// (verification hook) resource footprint: name/value pairs.
+    #[cfg(feature = "verif-hooks")]
+    pub(crate) fn verif_footprint(&self, atom_prefix: &str) -> Vec<(&'static str, u64)> {
+        vec![
+            ("heap_cells", self.machine_st.heap.cell_len() as u64),
+            ("stack_top", self.machine_st.stack.top() as u64),
+            ("trail", self.machine_st.trail.len() as u64),
+            ("load_contexts", self.load_contexts.len() as u64),
+            (
+                "inactive_load_states",
+                self.machine_st
+                    .arena
+                    .verif_slab_count_by_tag(ArenaHeaderTag::InactiveLoadState) as u64,
+            ),
+            (
+                "f64_entries",
+                self.machine_st.arena.f64_tbl.verif_entry_count() as u64,
+            ),
+            ("code_len", self.code.len() as u64),
+            (
+                "atoms_with_prefix",
+                self.machine_st
+                    .atom_tbl
+                    .active_table()
+                    .iter()
+                    .filter(|a| a.as_str().starts_with(atom_prefix))
+                    .count() as u64,
+            ),
+        ]
+    }
+
     pub(crate) fn run_module_predicate(
         &mut self,
         module_name: Atom,
